@@ -131,7 +131,12 @@ func (in *Interp) spawn(fr *Frame, fv FuncV, args []Value, site *ssa.Go) {
 		in.cur = g
 		in.callValue(fv, args, nil)
 	}()
-	// the new goroutine does not run until the current one blocks or yields
+	// the new goroutine does not run until the current one blocks or yields,
+	// unless the harness asked for the other order (verifChildFirst)
+	if _, ok := in.sideTab["sched.childFirst"]; ok {
+		delete(in.sideTab, "sched.childFirst")
+		in.yield()
+	}
 }
 
 func (in *Interp) panicText(gp *GoPanic) string {
@@ -177,9 +182,21 @@ func (in *Interp) schedule(from *G) {
 		}
 	}
 	if next == nil && from != nil && !from.done && from.runnable() {
-		// nobody else can run: continue ourselves
-		in.cur = from
-		return
+		// nobody else can run: continue ourselves. Exception: when the main
+		// goroutine yields ("let everybody else run to quiescence"), goroutines
+		// parked in an earlier yield of their own get their turn first.
+		parked := false
+		if from.id == 0 && from.yielding {
+			for _, g := range in.gs {
+				if g != from && g.yielding && g.runnable() {
+					parked = true
+				}
+			}
+		}
+		if !parked {
+			in.cur = from
+			return
+		}
 	}
 	if next == nil {
 		// resume a yielder (highest id last yielded first)
